@@ -158,6 +158,18 @@ func init() {
 			}
 			scribble()
 			return fmt.Sprintf("%s snap=%s after=%s", classify(err), snap, msgsStr(ms))
+		case "rmr":
+			// ali rmr <S|C> <stream> <later stream>: the message slice is recycled with ms[:0] (as example/autobahn
+			// does) while the application still holds the payloads it was given by the earlier call
+			st := side(a[1])
+			ms, err := wsutil.ReadMessage(bytes.NewReader(unhx(a[2])), st, nil)
+			held := append([]wsutil.Message(nil), ms...)
+			snap := msgsStr(held)
+			for i := 0; i < 3; i++ {
+				ms, _ = wsutil.ReadMessage(bytes.NewReader(unhx(a[3])), st, ms[:0])
+			}
+			scribble()
+			return fmt.Sprintf("%s snap=%s after=%s", classify(err), snap, msgsStr(held))
 		case "hcm":
 			// ali hcm <S|C> <opcode> <payloadhex>: a control message returned by a read helper, handed to
 			// HandleClientControlMessage / HandleServerControlMessage (which write the reply): the message the
@@ -237,11 +249,21 @@ func init() {
 			case "mfw0":
 				f := ws.MaskFrameWith(ws.NewBinaryFrame(p), [4]byte{})
 				out = f.Payload
+			case "mfm", "mfwm": // re-keying a frame that is ALREADY masked (what ws.ReadFrame hands a relay)
+				f := ws.NewBinaryFrame(p)
+				f.Header.Masked = true
+				f.Header.Mask = [4]byte{9, 8, 7, 6}
+				if a[1] == "mfm" {
+					f = ws.MaskFrame(f)
+				} else {
+					f = ws.MaskFrameWith(f, [4]byte{1, 2, 3, 4})
+				}
+				out = f.Payload
 			}
 			// the copying helpers return the caller's own frame: whatever is done to it later (forwarding it masked
 			// in place, say) must not reach the bytes that were passed in
 			switch a[1] {
-			case "mf", "mfw", "umf", "umf0", "umfu", "mfw0":
+			case "mf", "mfw", "umf", "umf0", "umfu", "mfw0", "mfm", "mfwm":
 				for i := range out {
 					out[i] ^= 0xff
 				}
@@ -345,6 +367,10 @@ func genC17(tier string, r *rng) {
 			ch := frameBytes(true, 0, ws.OpBinary, masked, bytes.Repeat([]byte{0xEE}, n+7))
 			run(fmt.Sprintf("ali rm %s %s %s", sd, hx(one), hx(ch)))
 			run(fmt.Sprintf("ali rm %s %s %s", sd, hx(frag), hx(ch)))
+			short := frameBytes(true, 0, ws.OpBinary, masked, bytes.Repeat([]byte{0xDD}, n/2))
+			run(fmt.Sprintf("ali rmr %s %s %s", sd, hx(one), hx(short)))
+			run(fmt.Sprintf("ali rmr %s %s %s", sd, hx(one), hx(ch)))
+			run(fmt.Sprintf("ali rmr %s %s %s", sd, hx(frag), hx(short)))
 		}
 		for _, op := range []int{9, 10, 8} {
 			for _, n := range []int{0, 1, 2, 16, 100, 125} {
@@ -355,7 +381,7 @@ func genC17(tier string, r *rng) {
 				run(fmt.Sprintf("ali hcm %s %d %s", sd, op, hx(pl)))
 			}
 		}
-		for _, kind := range []string{"wm", "wt", "big", "buffered", "cwr", "mf", "mfw", "umf", "umf0", "umfu", "mfw0"} {
+		for _, kind := range []string{"wm", "wt", "big", "buffered", "cwr", "mf", "mfw", "umf", "umf0", "umfu", "mfw0", "mfm", "mfwm"} {
 			for _, n := range []int{0, 1, 7, 8, 9, 31, 100, 127, 128, 256, 1000, 1024, 4096, 5000} {
 				run(fmt.Sprintf("ali wr %s %s %s", kind, sd, hx(r.bytes(n))))
 			}
